@@ -55,7 +55,17 @@ def run(ctx):
                   "the %s-1970 side is not UNIX_EPOCH.%s(timestamp_delta_to_duration(%s)) under `timestamp >= EPOCH` == %s" % (
                       "post" if truth else "pre", op, arg, truth), f.loc(), fn=f.name, key="%s|to|%s" % (R, op))
     uo = [c for c in cs if c[1].endswith("Option::<T>::unwrap_or")]
-    ctx.check(len(uo) == 1 and uo[0][2][1] == "k:std::time::UNIX_EPOCH", R, "to_system_time overflow fallback", "unwrap_or(UNIX_EPOCH)",
+    fb = len(uo) == 1 and uo[0][2][1] == "k:std::time::UNIX_EPOCH"
+    if not uo:
+        # the same fallback as a match: `None => UNIX_EPOCH` (the return place is given UNIX_EPOCH exactly where the checked result is None)
+        for bl in f.blocks:
+            if bl["cleanup"]:
+                continue
+            for st in bl["stmts"]:
+                if st["lhs"]["l"] == 0 and not st["lhs"]["p"] and st["rhs"]["rv"] == "use" and S.val(st["rhs"]["ops"][0]) == "k:std::time::UNIX_EPOCH":
+                    fa = [(e, tr) for (e, tr, g) in S.bool_facts_at(bl["id"]) if e.startswith("discr(") and tr == ("==", 0)]
+                    fb = fb or bool(fa)
+    ctx.check(fb, R, "to_system_time overflow fallback", "unwrap_or(UNIX_EPOCH)",
               "out-of-range results are not replaced by UNIX_EPOCH", f.loc(), fn=f.name)
     f = prog.fn(M + "duration_to_timestamp_delta")
     cs = symcalls(prog, f)
